@@ -200,7 +200,7 @@ inline void hook_fn(uint32_t id, const void* obj, uint64_t a, uint64_t b, uint64
     case VT_SEM_RESUME: snprintf(buf, sizeof buf, "{\"e\":\"hSemResume\",\"s\":%d,\"t\":%d,\"left\":%d}\n", T(obj), T((void*)a), (int)b); break;
     case VT_RW_STATE: snprintf(buf, sizeof buf, "{\"e\":\"hRwState\",\"o\":%d,\"st\":%d,\"mode\":%d,\"t\":%d}\n", T(obj), (int)(int64_t)a, (int)b, T((void*)c)); break;
     case VT_RW_WAKE_READERS: snprintf(buf, sizeof buf, "{\"e\":\"hRwWakeReaders\",\"o\":%d}\n", T(obj)); break;
-    case VT_STEAL: snprintf(buf, sizeof buf, "{\"e\":\"hSteal\",\"t\":%d,\"src\":%d}\n", T(obj), (int)c); break;
+    case VT_STEAL: snprintf(buf, sizeof buf, "{\"e\":\"hSteal\",\"t\":%d,\"src\":%d,\"tidx\":%d}\n", T(obj), (int)c, photon_verif_thread_sleepq_idx(obj)); break;
     case VT_PRESWITCH: snprintf(buf, sizeof buf, "{\"e\":\"hPreSwitch\",\"t\":%d,\"to\":%d}\n", T(obj), T((void*)a)); break;
     case VT_HEAP_OP: {
         if (!heap_logged().load(std::memory_order_relaxed)) return;
